@@ -72,3 +72,11 @@ Theorem C04_outstanding_accepts :
     parse_xml_response cfg ids now cur (DRoot r) = Ok a.
 Proof. exact reqid_family_complete. Qed.
 Print Assumptions C04_outstanding_accepts.
+
+(* The monitor the correspondence check evaluates on the implementation's answers is the
+   boolean form of the statements above: it is true of the model itself, so it can only fire on
+   a case where the implementation departs from the model (entry point ParseXMLResponse). *)
+Theorem C04_monitor_holds_of_model :
+  forall c, pc_entry c = 0 -> spcase_agree c = true -> c04_spec c = true.
+Proof. exact c04_monitor. Qed.
+Print Assumptions C04_monitor_holds_of_model.
